@@ -14,9 +14,6 @@ def recs : List Ev → List Wire
   | .record (some w) :: t => w :: recs t
   | _ :: t => recs t
 
-/-- the most recent record with record key `k` -/
-def lastWith (k : Bytes) (h : List Wire) : Option Wire := h.reverse.find? (fun w => ukey w.msg = k)
-
 def bufGet (b : List (Bytes × Wire)) (k : Bytes) : Option Wire :=
   match b with
   | [] => none
@@ -211,6 +208,163 @@ theorem start_offset (low high : Int) (h0 : 0 ≤ low) (h1 : low ≤ high) (h2 :
   · have e2 : wrap64 (high - 50000) = high - 50000 := wrap64_id _ (by omega) (by omega)
     rw [e2]; omega
   · omega
+
+
+/-! ### bridge: the model's deliveries satisfy the Spec monitor, for every history -/
+
+theorem bufSet_keys (b : List (Bytes × Wire)) (k : Bytes) (w : Wire) :
+    (bufSet b k w).map (·.1) = if k ∈ b.map (·.1) then b.map (·.1) else b.map (·.1) ++ [k] := by
+  induction b with
+  | nil => simp [bufSet]
+  | cons kv rest ih =>
+    obtain ⟨k', w'⟩ := kv
+    by_cases h1 : k' = k
+    · subst h1; simp [bufSet]
+    · have h2 : ¬ k = k' := fun e => h1 e.symm
+      simp only [bufSet, h1, if_false, List.map_cons, ih, List.mem_cons, h2, false_or]
+      split <;> simp
+
+theorem bufSet_nodup (b : List (Bytes × Wire)) (k : Bytes) (w : Wire) (h : (b.map (·.1)).Nodup) :
+    ((bufSet b k w).map (·.1)).Nodup := by
+  rw [bufSet_keys]
+  split
+  · exact h
+  · rename_i hk
+    rw [List.nodup_append]
+    refine ⟨h, by simp, ?_⟩
+    intro a ha b' hb e
+    simp at hb; subst hb; subst e; exact hk ha
+
+theorem bufGet_of_mem (b : List (Bytes × Wire)) (kw : Bytes × Wire) (hm : kw ∈ b) (hn : (b.map (·.1)).Nodup) :
+    bufGet b kw.1 = some kw.2 := by
+  induction b with
+  | nil => cases hm
+  | cons x rest ih =>
+    obtain ⟨k', w'⟩ := x
+    simp only [List.map_cons, List.nodup_cons] at hn
+    rcases List.mem_cons.1 hm with rfl | hm
+    · simp [bufGet]
+    · have hne : ¬ k' = kw.1 := by
+        intro e; exact hn.1 (e ▸ List.mem_map.2 ⟨kw, hm, rfl⟩)
+      simp [bufGet, hne, ih hm hn.2]
+
+theorem bufGet_mem (b : List (Bytes × Wire)) (k : Bytes) (w : Wire) (h : bufGet b k = some w) : (k, w) ∈ b := by
+  induction b with
+  | nil => simp [bufGet] at h
+  | cons x rest ih =>
+    obtain ⟨k', w'⟩ := x
+    simp only [bufGet] at h
+    by_cases hk : k' = k
+    · simp [hk] at h; subst hk; subst h; exact List.mem_cons_self ..
+    · simp [hk] at h; exact List.mem_cons_of_mem _ (ih h)
+
+/-- what ties the model state to the monitor's ghost state -/
+structure Sim (s : St) (g : Ghost) : Prop where
+  pc : s.partitionCount = g.partitionCount
+  init : s.initialized = g.caughtUp
+  eofs : s.eofs = g.seen
+  pre : s.initialized = false → BufOk s.buffer ∧ (s.buffer.map (·.1)).Nodup ∧ ∀ k, bufGet s.buffer k = lastWith k g.hist
+
+/-- at release the model's deliveries are exactly what the statement prescribes -/
+theorem release_catchUpOk (b : List (Bytes × Wire)) (hist : List Wire) (hok : BufOk b) (hn : (b.map (·.1)).Nodup)
+    (hl : ∀ k, bufGet b k = lastWith k hist) :
+    catchUpOk hist ((b.filter (fun kw => !kw.2.ack)).map (fun kw => kw.2.msg)) = true := by
+  unfold catchUpOk
+  simp only [Bool.and_eq_true, List.all_eq_true, decide_eq_true_eq]
+  refine ⟨⟨?_, ?_⟩, ?_⟩
+  · intro m hm
+    obtain ⟨kw, hkw, rfl⟩ := List.mem_map.1 hm
+    obtain ⟨hmem, hack⟩ := List.mem_filter.1 hkw
+    have h1 := bufGet_of_mem b kw hmem hn
+    rw [hok kw hmem, hl] at h1
+    rw [h1]; simpa using hack
+  · intro w _
+    cases hlw : lastWith (ukey w.msg) hist with
+    | none => rfl
+    | some w' =>
+      simp only [Bool.or_eq_true, List.contains_iff_mem]
+      by_cases ha : w'.ack = true
+      · exact Or.inl ha
+      · right
+        rw [← hl] at hlw
+        have hmem := bufGet_mem b _ _ hlw
+        exact List.mem_map.2 ⟨(ukey w.msg, w'), List.mem_filter.2 ⟨hmem, by simpa using ha⟩, rfl⟩
+  · have : ((b.filter (fun kw => !kw.2.ack)).map (fun kw => kw.2.msg)).map ukey = (b.filter (fun kw => !kw.2.ack)).map (·.1) := by
+      rw [List.map_map]
+      apply List.map_congr_left
+      intro kw hkw
+      exact (hok kw (List.mem_filter.1 hkw).1).symm
+    rw [this]
+    exact List.Nodup.sublist ((List.filter_sublist).map _) hn
+
+theorem step_pc (s : St) (e : Ev) : (step s e).1.partitionCount = s.partitionCount := by
+  cases e with
+  | record w => cases w <;> simp [step] <;> split <;> (try split) <;> rfl
+  | eof p => simp only [step]; split <;> rfl
+  | kerr => rfl
+
+theorem step_sim (s : St) (g : Ghost) (e : Ev) (h : Sim s g) :
+    ∃ g', specStep g e (step s e).2 = .ok g' ∧ Sim (step s e).1 g' := by
+  obtain ⟨h1, h2, h3, h4⟩ := h
+  have hpc : ∀ g' : Ghost, g'.partitionCount = g.partitionCount → (step s e).1.partitionCount = g'.partitionCount :=
+    fun g' hg' => by rw [step_pc, hg']; exact h1
+  cases e with
+  | record w =>
+    cases w with
+    | none => exact ⟨g, by simp [specStep, step], ⟨h1, h2, h3, h4⟩⟩
+    | some w =>
+      cases hi : s.initialized with
+      | false =>
+        have hg : g.caughtUp = false := by rw [← h2, hi]
+        obtain ⟨p1, p2, p3⟩ := h4 hi
+        refine ⟨{ g with hist := g.hist ++ [w] }, by simp [specStep, step, hi, hg], ⟨hpc _ rfl, by simpa [step, hi] using hg.symm, by simpa [step, hi] using h3, ?_⟩⟩
+        intro _
+        simp only [step, hi, Bool.not_false, if_true]
+        refine ⟨bufSet_ok s.buffer w p1, bufSet_nodup s.buffer _ w p2, fun k => ?_⟩
+        simp [bufGet_set, lastWith_snoc, p3]
+      | true =>
+        have hg : g.caughtUp = true := by rw [← h2, hi]
+        refine ⟨{ g with hist := g.hist ++ [w] }, ?_, ⟨hpc _ rfl, by simp [step, hi, hg]; split <;> simp [hi], by simp [step, hi]; split <;> exact h3, ?_⟩⟩
+        · cases ha : w.ack <;> simp [specStep, step, hi, hg, ha]
+        · intro hf; simp [step, hi] at hf; split at hf <;> simp [hi] at hf
+  | eof p =>
+    have hseen : addEof g.seen p = addEof s.eofs p := by rw [h3]
+    cases hi : s.initialized with
+    | true =>
+      have hg : g.caughtUp = true := by rw [← h2, hi]
+      refine ⟨{ g with seen := addEof s.eofs p }, by simp [specStep, step, hi, hg, hseen], ⟨hpc _ rfl, by simp [step, hi, hg], by simp [step, hi], ?_⟩⟩
+      intro hf; simp [step, hi] at hf
+    | false =>
+      have hg : g.caughtUp = false := by rw [← h2, hi]
+      obtain ⟨p1, p2, p3⟩ := h4 hi
+      by_cases hall : (addEof s.eofs p).length ≥ s.partitionCount
+      · have hall' : (addEof s.eofs p).length ≥ g.partitionCount := by rw [← h1]; exact hall
+        refine ⟨{ g with seen := addEof s.eofs p, caughtUp := true }, ?_, ⟨hpc _ rfl, by simp [step, hi, hall], by simp [step, hi, hall], ?_⟩⟩
+        · simp only [specStep, hg, hseen, Bool.false_eq_true, if_false, hall', if_true, step, hi, Bool.not_false, Bool.true_and, decide_eq_true_eq, hall]
+          simp [release_catchUpOk s.buffer g.hist p1 p2 p3]
+        · intro hf; simp [step, hi, hall] at hf
+      · have hall' : ¬ (addEof s.eofs p).length ≥ g.partitionCount := by rw [← h1]; exact hall
+        refine ⟨{ g with seen := addEof s.eofs p }, ?_, ⟨hpc _ rfl, ?_, by simp [step, hi, hall], ?_⟩⟩
+        · simp only [specStep, hg, hseen, Bool.false_eq_true, if_false, hall', step, hi, Bool.not_false, Bool.true_and, decide_eq_true_eq, hall]
+          simp
+        · simp only [step, hi, Bool.not_false, Bool.true_and, decide_eq_true_eq, hall, if_false]; exact hg.symm
+        · intro _; simp only [step, hi, Bool.not_false, Bool.true_and, decide_eq_true_eq, hall, if_false]; exact ⟨p1, p2, p3⟩
+  | kerr => exact ⟨g, by simp [specStep, step], ⟨h1, h2, h3, h4⟩⟩
+
+/-- **bridge**: for every history of records and end-of-partition signals (any order, any repetition, any number of
+partitions) the deliveries of the receiver model satisfy the Spec monitor that also judges the real receiver -/
+theorem spec_holds (evs : List Ev) : ∀ (s : St) (g : Ghost), Sim s g → ∃ g', specRun g evs (run s evs).2 = .ok g' := by
+  induction evs with
+  | nil => intro s g _; exact ⟨g, by simp [specRun, run]⟩
+  | cons e es ih =>
+    intro s g h
+    obtain ⟨g1, hs, hsim⟩ := step_sim s g e h
+    obtain ⟨g2, hr⟩ := ih (step s e).1 g1 hsim
+    exact ⟨g2, by simp only [run, specRun, hs]; exact hr⟩
+
+theorem spec_holds_from_start (n : Nat) (evs : List Ev) :
+    ∃ g', specRun { partitionCount := n } evs (run { partitionCount := n } evs).2 = .ok g' :=
+  spec_holds evs _ _ (Sim.mk rfl rfl rfl (fun _ => And.intro (fun kv hkv => nomatch hkv) (And.intro List.nodup_nil (fun k => rfl))))
 
 /-- non-vacuity + the repeated-signal scenario that the unrepaired code got wrong (it counted signals, not partitions) -/
 example :
